@@ -78,9 +78,16 @@ meta['confirmed_at'] = time.strftime('%Y-%m-%dT%H:%M:%SZ', time.gmtime())
 if meta['confirmed']:
     dst = f'/verif/seeded/{name}'
     os.makedirs(dst, exist_ok=True)
-    shutil.copy(os.path.join(src,'patch.diff'), dst+'/patch.diff')
-    shutil.copy(os.path.join(src,'demo_test.go.txt'), dst+'/demo_test.go.txt')
-    if os.path.exists(os.path.join(src,'README.md')): shutil.copy(os.path.join(src,'README.md'), dst+'/README.md')
-    meta['needs'] = ''  # filled by hand: what it needs in order to manifest
+    if os.path.abspath(src)!=os.path.abspath(dst): shutil.copy(os.path.join(src,'patch.diff'), dst+'/patch.diff')
+    if os.path.abspath(src)!=os.path.abspath(dst):
+        shutil.copy(os.path.join(src,'demo_test.go.txt'), dst+'/demo_test.go.txt')
+        shutil.copy(os.path.join(src,'demo_path.txt'), dst+'/demo_path.txt')
+    if os.path.abspath(src)!=os.path.abspath(dst) and os.path.exists(os.path.join(src,'README.md')): shutil.copy(os.path.join(src,'README.md'), dst+'/README.md')
+    try:
+        old=json.load(open(dst+'/meta.json')); meta['needs']=old.get('needs',''); meta['caught_by']=old.get('caught_by',[])
+    except Exception:
+        meta['needs']=''
     json.dump(meta, open(dst+'/meta.json','w'), indent=1)
+if not meta['confirmed'] and os.path.isdir(f'/verif/seeded/{name}'):
+    json.dump(meta, open(f'/verif/seeded/{name}/meta.unconfirmed.json','w'), indent=1)
 print(json.dumps({k:meta[k] for k in meta if k not in('existing_tests','demo_with_tail','demo_without_tail')}, indent=1))
